@@ -226,6 +226,65 @@ func zzC11_udp_burst() {
 	symAssert(inOrder, "while handlers return without blocking, messages are processed in arrival order, also when the burst exceeds the receive queue")
 }
 
+// acknowledgements, resets and pongs are matched by the network reader itself, not behind the receive queue:
+// (1) a handler that pings the peer gets its pong although it occupies the processing loop; (2) with NSTART 1, a
+// handler waits in a nested request, a second request arrives before that nested request is acknowledged and its
+// handler queues a nested request of its own behind NSTART - the acknowledgement still gets through
+func zzC11_udp_special() {
+	s := zzNewSession()
+	var cc *Conn
+	ended := [2]bool{}
+	scenario := symChoose("scenario", 2)
+	var calls [2]*zzCall
+	var perr error
+	cc = zzNewConn(s, zzConnCfg{midSeed: 1000, nstart: 1, maxRetrans: 4, ackTimeout: 1 << 30, handler: func(w *responsewriter.ResponseWriter[*Conn], r *pool.Message) {
+		tok := r.Token()
+		if len(tok) != 2 || tok[0] != 0xC0 || tok[1] > 1 {
+			return
+		}
+		i := int(tok[1])
+		if scenario == 0 {
+			perr = cc.Ping(context.Background())
+		} else {
+			calls[i] = &zzCall{token: message.Token{0xD0, byte(i)}}
+			zzDo(cc, calls[i])
+		}
+		_ = w.SetResponse(codes.Content, message.TextPlain, bytesReader([]byte{tok[1]}))
+		ended[i] = true
+	}})
+	symSetNow(time.Unix(0, 1<<41))
+	_ = cc.Process(nil, zzDatagram(message.Confirmable, 100, codes.GET, message.Token{0xC0, 0}, nil))
+	zzWaitWritten(s, 1)
+	symIdle()
+	if scenario == 0 {
+		symCover("ping-from-handler")
+		w := s.written[0]
+		symAssert(w.typ == message.Confirmable && w.code == codes.Empty, "the handler's ping is on the wire")
+		_ = cc.Process(nil, zzDatagram(message.Reset, w.mid, codes.Empty, nil, nil)) // the pong
+		symIdle()
+		symAssert(ended[0] && perr == nil, "a ping issued from inside a handler gets its pong")
+		return
+	}
+	symCover("two-levels-behind-nstart")
+	// the nested GET of handler 0 is on the wire, unacknowledged; a second request arrives
+	_ = cc.Process(nil, zzDatagram(message.Confirmable, 101, codes.GET, message.Token{0xC0, 1}, nil))
+	symIdle()
+	symAssert(len(s.written) == 1, "the second handler's nested request waits for the outstanding-interaction slot")
+	// now the peer answers the first nested request (piggybacked)
+	zzAnswer(cc, s.written[0], 0x40, 0, 1)
+	symIdle()
+	// ... which frees the slot: the second nested request goes out and is answered too
+	for k := 1; k < len(s.written) && k < 6; k++ {
+		w := s.written[k]
+		if w.code == codes.GET && len(w.token) == 2 && w.token[0] == 0xD0 {
+			zzAnswer(cc, w, 0x41, 0, 1)
+			symIdle()
+		}
+	}
+	symAssert(ended[0] && ended[1], "both handlers complete: the acknowledgement of the first nested request is not stuck behind the second handler")
+	symAssert(calls[0] != nil && calls[0].err == nil && calls[1] != nil && calls[1].err == nil, "and both nested requests got their responses")
+}
+
 func zzC11_udp_selftest() {
 	s := zzNewSession()
 	handled := 0
